@@ -27,7 +27,7 @@ theorem access_leaves_nothing (k : Kernel) (guestBase offset len page : Nat) (sc
       obtain ⟨a, ms, idx⟩ := t
       simp at h; rw [← h.2.1]
       obtain ⟨_, _, m1, m2⟩ := mmapRange_some _ _ _ _ _ _ _ _ _ _ hr
-      exact ⟨by simp [unmapRange, munmapCall, grantUnmapCall, m1], by simp [unmapRange, munmapCall, grantUnmapCall, m2]⟩
+      exact ⟨by simp [unmapRange, munmapCall, grantUnmapCall, m1, m1, m2], by simp [unmapRange, munmapCall, grantUnmapCall, m1, m2]⟩
 
 /-- a zero-length access makes no system call at all -/
 theorem zero_length_access_no_call (k : Kernel) (guestBase offset page : Nat) (sc : Script) :
@@ -62,6 +62,28 @@ theorem window_covers_access (guestBase offset len page : Nat) (hp : 0 < page) :
     omega
   omega
 
+
+/-- the window is released **once**: the access never gives back a range or a grant mapping it does not hold -/
+theorem access_no_fault (k : Kernel) (guestBase offset len page : Nat) (sc : Script) :
+    (access k guestBase offset len page sc).2.1.faults = k.faults := by
+  unfold access
+  split
+  · rfl
+  · simp only
+    have hf := mmapRange_faults k (guestBase + (Xen.window page guestBase offset len).pageBase) (Xen.window page guestBase offset len).mapSize page sc
+    generalize hr : mmapRange k _ _ page sc = x at hf
+    obtain ⟨r, k1, sc1⟩ := x
+    cases r with
+    | none => simpa using hf
+    | some t =>
+      obtain ⟨a, ms, idx⟩ := t
+      obtain ⟨_, _, m1, m2⟩ := mmapRange_some _ _ _ _ _ _ _ _ _ _ hr
+      simp only [unmapRange]
+      have a1 := munmapCall_held (k := k1) (a := a) (s := ms) (by rw [m1]; exact List.mem_cons_self)
+      have a2 := grantUnmapCall_held (k := munmapCall k1 a ms) (i := idx) (c := (pages (Xen.window page guestBase offset len).mapSize page).1)
+        (by rw [a1.2, m2]; exact List.mem_cons_self)
+      rw [a2.1, a1.1]; simpa using hf
+
 example : (access {} 0x10000 0xffe 8 4096 []).2.1.maps = [] ∧ (access {} 0x10000 0xffe 8 4096 []).2.1.grants = [] ∧ (access {} 0x10000 0xffe 8 4096 []).1 = .done := by decide
 example : (access {} 0x10000 0xffe 8 4096 [true, false]).1 = .unwrapPanic ∧ (access {} 0x10000 0xffe 8 4096 [true, false]).2.1.grants = [] := by decide
 example : requests 0x10000 0xffe 8 4096 = [.map 0x10000 2, .unmap 0x10000 2] := by decide
@@ -73,3 +95,4 @@ end VmMem
 #print axioms VmMem.C17x.access_completes
 #print axioms VmMem.C17x.requests_balanced
 #print axioms VmMem.C17x.window_covers_access
+#print axioms VmMem.C17x.access_no_fault
